@@ -221,6 +221,10 @@ def _run_direct(case, obs):
             if evse.ev is not car:
                 obs.violate("plugin_occupied_replaced_occupant", "occupant object replaced by a same-id newcomer", evse=e)
                 return
+    if case["seed"] % 4 == 0:
+        from vlib.monitors import poke
+        poke(evse, build.build_evse("s", dict(e, form="list") if e["t"] == "FR" else e), car)
+        obs.ev("objects_printed_compared_hashed_before_use")
     bs = _boundaries(e)
     acc0, rej0 = obs.events["accepted"], obs.events["rejected"]
     near = 0
